@@ -791,12 +791,28 @@ def _legacy(chk, repo):
                 yield _fn
                 try:
                     yield canon_fn(repo, _ci, _fn, 4)
+                    # allocation / burn-in removal moved into private helpers: inlined again (the callback and progress helpers the rule names are kept)
+                    from .common import canon_keep
+                    keep = {"_call_callback", "_print_progress", "single_update", "_sample", "_sample_adapt", "tune", "step"}
+                    yield canon_keep(repo, _ci, _fn, keep)
+                    yield canon_keep(repo, _ci, _fn, keep, subst=True)
                 except AnchorError:
                     raise
                 except Exception:
                     return
 
             def on_view(t, v, _ci=ci):
+                # normal forms nest the rest of a function under `if <refusal test>: raise ... else: <rest>`: the chain code is that rest
+                from ..astutil import is_raise_only
+                import copy as _copy
+                body = list(v.body)
+                while body and isinstance(body[-1], ast.If) and body[-1].orelse and (is_raise_only(body[-1].body) or is_raise_only(body[-1].orelse)):
+                    last = body[-1]
+                    body = body[:-1] + (last.orelse if is_raise_only(last.body) else last.body)
+                if len(body) != len(v.body) or any(a is not b for a, b in zip(body, v.body)):
+                    v2 = _copy.copy(v)
+                    v2.body = body
+                    v = v2
                 lps = [n for n in v.body if isinstance(n, ast.For)]
                 if len(lps) != 1:
                     raise AnchorError(f"{_ci.qual}.{v.name}: {len(lps)} top-level loops in view")
